@@ -211,6 +211,7 @@ def conv(
         if transpose:
             raise NotImplementedError(f"conv() 'transpose=True' with padding {padding.value}")
         margin = tuple(reversed(margin))
+        margin = margin + (0,) * (D - len(margin))  # non-constant F.pad() modes need all spatial dimensions
         tensor = pad(data, margin=margin, mode=padding)
         return conv(tensor, kernel, stride=stride, dilation=dilation, padding=PaddingMode.NONE)
     if not is_float_dtype(dtype):
